@@ -648,6 +648,12 @@ func (a *Agent) gatherCandidatesLocalUDPMux(ctx context.Context) error { //nolin
 			}
 
 			c, err := NewCandidateHost(&hostConfig)
+			if err == nil && a.mDNSMode == MulticastDNSModeQueryAndGather {
+				// As on the interface path: the candidate hides the IP but keeps its address family.
+				if ipAddr, ok := netip.AddrFromSlice(candidateIP); ok {
+					err = c.setIPAddr(ipAddr.Unmap())
+				}
+			}
 			if err != nil {
 				closeConnAndLog(conn, a.log, "failed to create host mux candidate: %s %d: %v", candidateIP, udpAddr.Port, err)
 
